@@ -195,6 +195,33 @@ def run_real(case):
             kw["http_proxy_auth"] = case.proxy[2]
     r = Run()
     r.exc = None
+    # the ambient logging configuration of the process is not behaviour: one case in six runs with the library's logger
+    # silenced (setLevel above CRITICAL), one with logging.disable(CRITICAL), one with enableTrace(True); derived from the
+    # case itself so that a replay runs in the same mode
+    import logging
+    import zlib
+    mode = zlib.crc32((case.tag + "|" + case.url + "|" + str(len(case.dials))).encode()) % 6
+    lg = websocket._logging._logger
+    old_level, old_handlers, old_disable = lg.level, lg.handlers[:], logging.root.manager.disable
+    old_trace = websocket._logging._traceEnabled
+    r.ambient = {3: "logger-silenced", 4: "logging-disabled", 5: "trace-on"}.get(mode, "default")
+    if mode == 3:
+        lg.setLevel(logging.CRITICAL + 10)
+    elif mode == 4:
+        logging.disable(logging.CRITICAL)
+    elif mode == 5:
+        websocket.enableTrace(True, handler=logging.NullHandler())
+    try:
+        return _run_real(case, net, kw, r)
+    finally:
+        logging.disable(old_disable)
+        websocket._logging._traceEnabled = old_trace
+        lg.setLevel(old_level)
+        lg.handlers[:] = old_handlers
+
+
+def _run_real(case, net, kw, r):
+    import websocket
     with net:
         if case.user_sock is not None:
             kw["socket"] = net.user_socket
@@ -248,11 +275,11 @@ _CERTB = {None: None, "N": ssl.CERT_NONE, "O": ssl.CERT_OPTIONAL, "R": ssl.CERT_
 
 
 def _ev_json(events):
-    return [[e[0], bytes(e[1]).hex()] if e[0] == "chunk" else [e[0]] for e in events]
+    return [[e[0], bytes(e[1]).hex()] if e[0] == "chunk" else ([e[0], e[1]] if e[0] == "interrupt" else [e[0]]) for e in events]
 
 
 def _ev_back(j):
-    return [("chunk", bytes.fromhex(e[1])) if e[0] == "chunk" else (e[0],) for e in j]
+    return [("chunk", bytes.fromhex(e[1])) if e[0] == "chunk" else (tuple(e) if e[0] == "interrupt" else (e[0],)) for e in j]
 
 
 def dial_json(d):
